@@ -538,7 +538,8 @@ impl Worker<'_> {
         self.loclists.get(name).map(|rs| !rs.iter().any(|(a, b)| *a <= self.pc && self.pc < *b) && rs.iter().any(|(_, b)| *b == self.pc)).unwrap_or(false)
     }
     /// the variable is described by a location LIST and no range of it covers the stop pc: DWARF gives it no location here
-    fn no_location(&self, name: &str) -> bool {
+    fn no_location(&self, name: &str) -> bool { self.no_location_here(name) }
+    fn no_location_here(&self, name: &str) -> bool {
         self.loclists.get(name).map(|rs| !rs.iter().any(|(a, b)| *a <= self.pc && self.pc < *b)).unwrap_or(false)
     }
     fn handle(&mut self, qr: &QueryResult, var: &Var, defs: &Defs, what: &str) {
@@ -601,10 +602,18 @@ impl Worker<'_> {
         // DWARF says "no location here"; whatever is shown comes from the stale entry
         let at_range_end = self.at_range_end(&var.name);
         if at_range_end { self.stat("stop-at-exclusive-end-of-location-range"); }
-        if let (Some(h), false) = (var.hint, fails.is_empty()) {
+        if self.no_location_here(&var.name) {
+            // no range of the variable's location list covers the stop pc (the compiler's description, e.g. a by-reference argument
+            // between the overwrite of its register and its reload from the stack): nothing of the program's value can be shown
+            // - no verdict on the value - and nothing may be read: bytes fetched here come from an entry that does not apply
+            self.stat("no-verdict:no-location-at-stop-pc");
+            if let Some(addr) = v.in_memory_location() {
+                let key = if at_range_end { "location-list-range-end-treated-as-inclusive" } else { "value-read-where-dwarf-gives-no-location" };
+                self.oracle(key, &format!("{what} {}: no location-list range of the variable covers the stop pc {:#x}{}, yet a value is read (at {addr:#x}, from an entry that does not apply){}", var.name, self.pc,
+                    if at_range_end { " (it is the exclusive end of a range)" } else { "" }, fails.first().map(|f| format!(": {}", f.1)).unwrap_or_default()), &var.name);
+            }
+        } else if let (Some(h), false) = (var.hint, fails.is_empty()) {
             self.oracle(h, &format!("{what} {}", fails[0].1), &var.name);
-        } else if at_range_end && !fails.is_empty() {
-            self.oracle("location-list-range-end-treated-as-inclusive", &format!("{what} {}: the stop pc {:#x} is the exclusive end of a location-list range of the variable and no range covers it, yet a value is shown (from the stale entry): {}", var.name, self.pc, fails[0].1), &var.name);
         } else {
             for (key, msg) in fails.into_iter().take(3) { self.oracle(&key, &format!("{what} {msg}"), &var.name); }
         }
